@@ -172,8 +172,9 @@ class ProgGen(object):
 
     def __init__(self, rng, max_depth=4, max_nodes=40, value_depth=2, msg_styles=None, act_styles=None,
                  exc_pool=None, allow_remote=True, allow_tb=True, allow_typed=True, type_names=None,
-                 allow_cross=True, fail_p=0.3, remote_vias=("same", "thread"), allow_reenter=False):
+                 allow_cross=True, fail_p=0.3, remote_vias=("same", "thread"), allow_reenter=False, hostile=None):
         self.allow_reenter = allow_reenter
+        self.hostile = hostile  # callable(rng) -> hostile value, used for ~1/3 of the field values
         self.rng = rng
         self.max_depth = max_depth
         self.budget = max_nodes
@@ -201,7 +202,10 @@ class ProgGen(object):
             k = rng.choice(IDENT_KEYS) if (ident_only or typed or rng.random() < 0.6) else gen_key(rng)
             if k in RESERVED or k.startswith("_"):
                 continue
-            out[k] = gen_value(rng, self.value_depth)
+            if self.hostile is not None and rng.random() < 0.35:
+                out[k] = self.hostile(rng)
+            else:
+                out[k] = gen_value(rng, self.value_depth)
         return out
 
     def typed_decl(self, fields):
@@ -235,7 +239,7 @@ class ProgGen(object):
                 "success": {} if ident else self.fields(typed=typed),
                 "outcome": "ok", "children": []}
         if ident:
-            node["result"] = gen_value(rng, self.value_depth)
+            node["result"] = self.hostile(rng) if (self.hostile is not None and rng.random() < 0.4) else gen_value(rng, self.value_depth)
         if typed:
             node["decl_start"] = self.typed_decl(node["start"])
             node["decl_success"] = self.typed_decl(node["success"])
